@@ -37,7 +37,8 @@ def preimport():
     import circus.commands  # noqa
 
 
-STATS = {'solver_queries': 0, 'solver_s': 0.0, 'unknown': 0}
+STATS = {'solver_queries': 0, 'solver_s': 0.0, 'unknown': 0, 'unsupported': 0}
+UNSUPPORTED = []
 CAPTURED = []
 ANALYSES = []
 
@@ -51,6 +52,16 @@ def patch_crosshair():
 
     # (1) no short-circuiting of annotated / contracted callees: every callee is executed.
     core.ShortCircuitingContext.make_interceptor = lambda self, f: f
+
+    # (1b) no contract enforcement on callees either: circus has no contracts, and the enforcement
+    # tracing module costs a Python-level callback for every call executed (measured: 3.5 s -> see DESIGN)
+    import contextlib
+    import crosshair.enforce as enforce
+
+    @contextlib.contextmanager
+    def _no_enforcement(self):
+        yield None
+    enforce.EnforcedConditions.enabled_enforcement = _no_enforcement
 
     # (2) ObjectDict raises KeyError from __getattr__; CrossHair probes __ch_* attributes.
     import circus.util as cu
@@ -91,6 +102,17 @@ def patch_crosshair():
             CAPTURED.append({'__capture_error__': repr(e)})
         return msg
     core.make_counterexample_message = make_counterexample_message
+
+    # paths that CrossHair abandons because a library could not take a symbolic value
+    import crosshair.util as chutil
+    _orig_unsup = chutil.CrosshairUnsupported.__init__
+
+    def _unsup_init(self, *a):
+        STATS['unsupported'] += 1
+        if len(UNSUPPORTED) < 3:
+            UNSUPPORTED.append(''.join(traceback.format_stack(limit=14))[-1800:] + ' :: ' + repr(a)[:300])
+        _orig_unsup(self, *a)
+    chutil.CrosshairUnsupported.__init__ = _unsup_init
 
     _orig_tree = core.analyze_calltree
 
@@ -133,6 +155,7 @@ def main(argv=None):
         rt.S.clear()
         rt.S.update(out['shard'])
         rt.TWIN = a.twin
+        rt.SYMBOLIC = True
         mod = importlib.import_module(a.module)
         if a.canary:
             mod.CANARIES[a.canary]['apply']()
@@ -156,6 +179,7 @@ def main(argv=None):
         out['confirmed_paths'] = sum(x.num_confirmed_paths for x in ANALYSES)
         out['verdict_paths'] = rt.COUNT['verdicts']
         out['skip_paths'] = rt.COUNT['skips']
+        out['unsupported_samples'] = UNSUPPORTED
         out['messages'] = [{'state': m.state.value, 'message': m.message[:2000],
                             'tb': (m.traceback or '')[-3000:]} for m in msgs]
         states = {m.state for m in msgs}
